@@ -636,6 +636,11 @@ func (h *histRun) checkAccessCurrency() {
 			name, _ := ridName(strings.Replace(root, "{cid}", c.CID, -1))
 			h.stat("c04_deliveries_checked", 1)
 			if sig, bad := stale(name, f.T, s.T, ""); bad {
+				if h.hasNote("populate.deleted", c.CID, root) {
+					// finding C: served from a deleted subscription that was
+					// revived; it is outside the cache and no trigger reaches it
+					sig += ".populateDeleted"
+				}
 				h.viol(Viol{Prop: "C04", Conn: c.Idx, T: f.T, RID: root, Sig: sig,
 					Msg: fmt.Sprintf("request %s (sent t=%d) was answered with resource %s at t=%d without a valid access grant for it (%s)", s.Method, s.T, root, f.T, sig)})
 			}
@@ -665,6 +670,12 @@ func (h *histRun) checkAccessCurrency() {
 			}
 			h.stat("c05_calls_checked", 1)
 			if sig, bad := stale(r.Name, r.T, sent.T, r.Method); bad {
+				for _, sn := range h.noteRIDs("populate.deleted", c.CID) {
+					if n, _ := ridName(sn); strings.Replace(n, "{cid}", c.CID, -1) == r.Name {
+						sig += ".populateDeleted"
+						break
+					}
+				}
 				h.viol(Viol{Prop: "C05", Conn: c.Idx, T: r.T, RID: r.Subject, Sig: sig,
 					Msg: fmt.Sprintf("call %s was forwarded at t=%d (client request sent t=%d) without a valid access grant (%s)", r.Subject, r.T, sent.T, sig)})
 			}
